@@ -7,7 +7,7 @@
 From Coq Require Import String List NArith ZArith Bool.
 From J5V.lib Require Import Text Outcome.
 From J5V.model Require Import BclLexer BclParser BclFmt.
-From J5V.proofs Require Import BclPosProofs BclLexerProofs BclParserProofs BclFmtProofs BclFmtLitProofs.
+From J5V.proofs Require Import BclPosProofs BclLexerProofs BclParserProofs BclFmtProofs BclFmtLitProofs BclReflowProofs.
 Import ListNotations.
 
 (* ---- the position-free document of a fragment list -------------------------------------------- *)
@@ -123,10 +123,17 @@ Theorem C09_int_separation : forall c r tail s,
 Proof. exact relex_int. Qed.
 Print Assumptions C09_int_separation.
 
+(* idempotence of the description re-flow (finding 22 lived here): feeding the re-flowed lines back
+   gives the same lines, for every text and every width (also negative) *)
+Theorem C09_reflow_fixed_point : forall maxw input,
+  reformat_description (join_with 10 (reformat_description input maxw)) maxw = reformat_description input maxw.
+Proof. exact reflow_fixed_point. Qed.
+Print Assumptions C09_reflow_fixed_point.
+
 (* PARTIAL: C09_full_statement itself is not proved.  Missing: the fragment-level composition
    (walk (lex (render fs)) = fs up to positions, from the literal and separation lemmas above),
-   and that rendering is a normal form on its own image (idempotence), including the fixed-point
-   property of the description re-flow.  Those clauses are evaluated on every run by the direct
+   and that rendering is a normal form on its own image (idempotence of the whole formatter; the
+   description re-flow part is C09_reflow_fixed_point).  Those clauses are evaluated on every run by the direct
    oracle (re-parse, document comparison, format twice) and the byte-exact correspondence of Fmt. *)
 
 (* non-vacuity: a string with every escapable rune, a regex with slashes, nested array, trailing
